@@ -1,9 +1,12 @@
 import KanidmModel.OAuth2.Token
 import KanidmProofs.Lemmas.SessionPlugin
+import KanidmProofs.C36
 /-!
 Helper lemmas for C39: the vocabulary of the property (`Revoked`, `ExpiredAt`, `LiveAt`, read off
 the property text), the closed form of `check_oauth2_account_uuid_valid`, lookups through a write
-transaction, and "a revoked session stays revoked under every write".
+transaction, and "a revoked session stays revoked under every write — or is trimmed away, never live
+again" (on C36's `DeadO2` / `DeadUat` and its `dead_…_stays_dead_write` lemmas; C36's write step starts
+with the `Entry::invalidate` trim).
 -/
 namespace Kanidm.OAuth2.Token
 open Kanidm.OAuth2 Kanidm.Gen.OAuth2Token Kanidm.SessionPlugin Kanidm.SessionMerge Kanidm.Gen.SessionOrd
@@ -139,13 +142,72 @@ theorem update_isSome {w : World} {a : Nat} {e : Entry} (f : Entry → Entry) (m
     (h : w.acct a = some e) : ∃ w', w.update a f m ct = some w' := by
   unfold World.update; simp [h]
 
-/-! ## Revoked stays revoked (one write) -/
+/-! ## Through the trim every write starts with (`Entry::invalidate`) -/
+
+theorem keepSess_of_fresh {f : Nat → Nat → Bool} {t : Nat} {s : Sess}
+    (h : ∀ c, s.state = .revokedAt c → f c t = false) : keepSess f t s = true := by
+  unfold keepSess
+  cases hs : s.state with
+  | revokedAt c => simp [h c hs]
+  | expiresAt _ => rfl
+  | neverExpires => rfl
+
+/-- A value the trim test keeps is still found under its key after the trim, whatever else the
+trim drops. -/
+theorem lookup_trimRevoked_keep {f : Nat → Nat → Bool} {t : Nat} {m : SMap} {k : Nat} {s : Sess}
+    (h : lookup m k = some s) (hk : keepSess f t s = true) : lookup (trimRevoked f t m) k = some s := by
+  induction m with
+  | nil => simp [lookup] at h
+  | cons hd tl ih =>
+    obtain ⟨k', v⟩ := hd
+    unfold trimRevoked at ih ⊢
+    by_cases hkk : k = k'
+    · subst hkk
+      simp only [lookup, if_true, Option.some.injEq] at h
+      subst h
+      simp [hk, lookup]
+    · simp only [lookup, hkk, if_false] at h
+      by_cases hv : keepSess f t v = true
+      · simp only [List.filter_cons, hv, if_true, lookup, hkk, if_false]
+        exact ih h
+      · simp only [List.filter_cons, hv, Bool.false_eq_true, if_false]
+        exact ih h
+
+/-- The trim keeps an OAuth2 session that is not a revocation older than the trim id. -/
+theorem lookup_trim_o2s {t : Nat} {e : Entry} {k : Nat} {s : Sess} (h : lookup e.o2s k = some s)
+    (hk : ∀ c, s.state = .revokedAt c → ¬ c < t) : lookup (trimEntry t e).o2s k = some s :=
+  lookup_trimRevoked_keep h (keepSess_of_fresh (fun c hc => by simpa [o2Trim] using hk c hc))
+
+/-- The trim keeps a login session that is not a revocation older than the trim id, as long as the
+account holds at most `SESSION_MAXIMUM` of them (no forced trim). -/
+theorem uatOf_trim {t : Nat} {e : Entry} {k : Nat} {s : Sess} (h : uatOf e k = some s)
+    (hB : ∀ m, e.uats = some m → m.length ≤ sessionMaximum)
+    (hk : ∀ c, s.state = .revokedAt c → ¬ c < t) : uatOf (trimEntry t e) k = some s := by
+  unfold uatOf at h ⊢
+  cases hm : e.uats with
+  | none => simp [hm] at h
+  | some m =>
+    simp only [hm, Option.bind_some] at h
+    simp only [trimEntry, hm, Option.map_some, Option.bind_some]
+    unfold sessTrimAll
+    have hlen : (trimRevoked sessTrim t m).length ≤ sessionMaximum :=
+      Nat.le_trans (List.length_filter_le _ _) (hB m hm)
+    rw [forceTrim_id _ hlen]
+    exact lookup_trimRevoked_keep h (keepSess_of_fresh (fun c hc => by simpa [sessTrim] using hk c hc))
+
+/-! ## Revoked stays revoked (one write)
+
+The modlist and the plugin never touch a revoked session (`…_stepCore`); the trim in front of them
+(`SessionPlugin.step` = trim, modlist, plugin) drops a revocation older than the changelog window, so
+through a whole write the same record is kept exactly when the trim keeps it (`…_write`).  The
+unconditional form — revoked or gone, never live again — is C36's `dead_oauth2_stays_dead_write` /
+`dead_stays_dead_write` (`DeadO2`, `DeadUat`). -/
 
 /-- The value under `k` is a revoked session. -/
 def RevokedIn (m : SMap) (k : Nat) : Prop := ∃ s, lookup m k = some s ∧ Revoked s
 
-theorem revokedIn_o2s_write (e : Entry) (md : Mod) (ct cid k : Nat) (h : RevokedIn e.o2s k) :
-    RevokedIn (Kanidm.SessionPlugin.step e (.write md ct cid)).o2s k := by
+theorem revokedIn_o2s_stepCore (e : Entry) (md : Mod) (ct cid k : Nat) (h : RevokedIn e.o2s k) :
+    RevokedIn (stepCore e md ct cid).o2s k := by
   obtain ⟨s, hs, c, hr⟩ := h
   have h1 : ∃ s1, lookup (applyMod cid e md).o2s k = some s1 ∧ s1.state = .revokedAt c := by
     cases md with
@@ -164,15 +226,21 @@ theorem revokedIn_o2s_write (e : Entry) (md : Mod) (ct cid k : Nat) (h : Revoked
     | _ => exact ⟨s, hs, hr⟩
   obtain ⟨s1, hs1, hr1⟩ := h1
   refine ⟨s1, ?_, c, hr1⟩
-  simp only [Kanidm.SessionPlugin.step]
+  simp only [stepCore]
   rw [plugin_o2s, lookup_mapVals, hs1]
   simp [o2Post_of_revoked hr1]
+
+theorem revokedIn_o2s_write (e : Entry) (md : Mod) (ct cid k : Nat) (h : RevokedIn e.o2s k)
+    (hkeep : ∀ s c, lookup e.o2s k = some s → s.state = .revokedAt c → ¬ c < trimCidOf cid) :
+    RevokedIn (Kanidm.SessionPlugin.step e (.write md ct cid)).o2s k := by
+  obtain ⟨s, hs, hr⟩ := h
+  exact revokedIn_o2s_stepCore _ md ct cid k ⟨s, lookup_trim_o2s hs (fun c hc => hkeep s c hs hc), hr⟩
 
 /-- The login session `k` of the entry is on record and revoked. -/
 def UatRevoked (e : Entry) (k : Nat) : Prop := ∃ s, uatOf e k = some s ∧ Revoked s
 
-theorem uatRevoked_write (e : Entry) (md : Mod) (ct cid k : Nat) (h : UatRevoked e k) :
-    UatRevoked (Kanidm.SessionPlugin.step e (.write md ct cid)) k := by
+theorem uatRevoked_stepCore (e : Entry) (md : Mod) (ct cid k : Nat) (h : UatRevoked e k) :
+    UatRevoked (stepCore e md ct cid) k := by
   obtain ⟨s, hs, c, hr⟩ := h
   unfold uatOf at hs
   cases hm : e.uats with
@@ -194,9 +262,90 @@ theorem uatRevoked_write (e : Entry) (md : Mod) (ct cid k : Nat) (h : UatRevoked
     obtain ⟨m1, s1, hm1, hs1, hr1⟩ := h1
     refine ⟨s1, ?_, c, hr1⟩
     unfold uatOf
-    simp only [Kanidm.SessionPlugin.step, plugin_uats, hm1, Option.map_some, Option.bind_some]
+    simp only [stepCore, plugin_uats, hm1, Option.map_some, Option.bind_some]
     rw [lookup_mapVals, hs1]
     simp [uatPost_of_revoked hr1]
+
+theorem uatRevoked_write (e : Entry) (md : Mod) (ct cid k : Nat) (h : UatRevoked e k)
+    (hB : ∀ m, e.uats = some m → m.length ≤ sessionMaximum)
+    (hkeep : ∀ s c, uatOf e k = some s → s.state = .revokedAt c → ¬ c < trimCidOf cid) :
+    UatRevoked (Kanidm.SessionPlugin.step e (.write md ct cid)) k := by
+  obtain ⟨s, hs, hr⟩ := h
+  exact uatRevoked_stepCore _ md ct cid k ⟨s, uatOf_trim hs hB (fun c hc => hkeep s c hs hc), hr⟩
+
+/-! ## Revoked or gone (C36's `DeadO2` / `DeadUat`) read through `lookup` -/
+
+theorem deadO2_lookup {e : Entry} {k : Nat} {s : Sess} (h : DeadO2 e k) (hs : lookup e.o2s k = some s) :
+    Revoked s := h s (mem_of_lookup hs)
+
+theorem deadUat_lookup {e : Entry} {k : Nat} {s : Sess} (h : DeadUat e k) (hs : uatOf e k = some s) :
+    Revoked s := by
+  unfold uatOf at hs
+  cases hm : e.uats with
+  | none => simp [hm] at hs
+  | some m =>
+    simp only [hm, Option.bind_some] at hs
+    exact h s ⟨m, hm, mem_of_lookup hs⟩
+
+/-- With distinct keys (a `BTreeMap`) "on record and revoked" is a case of "revoked or gone". -/
+theorem deadO2_of_revokedIn {e : Entry} {k : Nat} (hn : KeysNodup e.o2s) (h : RevokedIn e.o2s k) :
+    DeadO2 e k := by
+  obtain ⟨s, hs, hr⟩ := h
+  intro s' hs'
+  have := lookup_of_mem hn hs'
+  rw [hs] at this; cases this
+  exact hr
+
+theorem deadUat_of_uatRevoked {e : Entry} {k : Nat} (hn : ∀ m, e.uats = some m → KeysNodup m)
+    (h : UatRevoked e k) : DeadUat e k := by
+  obtain ⟨s, hs, hr⟩ := h
+  rintro s' ⟨m, hm, hmem⟩
+  unfold uatOf at hs
+  simp only [hm, Option.bind_some] at hs
+  have := lookup_of_mem (hn m hm) hmem
+  rw [hs] at this; cases this
+  exact hr
+
+/-- A write whose modlist revokes OAuth2 session `k` leaves everything under `k` revoked. -/
+theorem deadO2_revokeO2_write (e : Entry) (ct cid k : Nat) :
+    DeadO2 (Kanidm.SessionPlugin.step e (.write (.revokeO2 k) ct cid)) k := by
+  intro s' hs'
+  simp only [Kanidm.SessionPlugin.step, stepCore] at hs'
+  rw [plugin_o2s] at hs'
+  obtain ⟨s1, hm1, rfl⟩ := mem_mapVals hs'
+  simp only [applyMod] at hm1
+  rw [revokeKey_eq] at hm1
+  obtain ⟨⟨a, s0⟩, hm0, he⟩ := List.mem_map.mp hm1
+  simp only [Prod.mk.injEq] at he
+  obtain ⟨rfl, rfl⟩ := he
+  simp only [if_true]
+  obtain ⟨c, hc⟩ := revoke_revoked cid s0
+  exact ⟨c, by rw [o2Post_of_revoked hc]; exact hc⟩
+
+/-- Everything under a dead OAuth2 session id fails the validity test once the token's grace window
+has passed: a revoked session at once, a session the trim has dropped like any session not on record. -/
+theorem deadO2_not_valid {e : Entry} {sid : Nat} (h : DeadO2 e sid) (parent : Option Nat) {iat ct : Nat}
+    (hg : iat * 1000000000 + fiveMinutesNs ≤ ct) : acctValid e sid parent iat ct = false := by
+  cases hv : acctValid e sid parent iat ct with
+  | false => rfl
+  | true =>
+    obtain ⟨_, ⟨o, ho, hlo, _⟩ | ⟨_, hn⟩⟩ := (acctValid_true_iff e sid parent iat ct).mp hv
+    · exact absurd (deadO2_lookup h ho) hlo.1
+    · omega
+
+/-- The same for a token whose parent login session is dead (and not an api token of the account). -/
+theorem deadUat_not_valid {e : Entry} {p : Nat} (h : DeadUat e p) (hapi : p ∉ e.apis) (sid : Nat)
+    {iat ct : Nat} (hg : iat * 1000000000 + fiveMinutesNs ≤ ct) :
+    acctValid e sid (some p) iat ct = false := by
+  cases hv : acctValid e sid (some p) iat ct with
+  | false => rfl
+  | true =>
+    obtain ⟨_, ⟨o, _, _, hp⟩ | ⟨_, hn⟩⟩ := (acctValid_true_iff e sid (some p) iat ct).mp hv
+    · rcases hp p rfl with ⟨u, hu, hlu⟩ | ⟨_, ha | hn⟩
+      · exact absurd (deadUat_lookup h hu) hlu.1
+      · exact absurd ha hapi
+      · omega
+    · omega
 
 theorem revokedIn_plugin (e : Entry) (ct cid k : Nat) (h : RevokedIn e.o2s k) :
     RevokedIn (plugin ct cid e).o2s k := by
